@@ -35,4 +35,10 @@ class Ref(Expression):
         out += (STATUS, RESULT, POS) << Yield((CALL, func, POS))
 
     def argumentize(self, out, flags):
-        return Code(self.resolved)
+        # A rule that is passed as an argument is looked up like any other
+        # reference, so that a derived grammar can override it.
+        is_rule = self._resolved is not None and not self.is_static
+        if flags.uses_context and is_rule:
+            return Code(f'_ctx.{self.resolved}')
+        else:
+            return Code(self.resolved)
